@@ -105,6 +105,14 @@ func c13Corpus(tier string) []c13Case {
 		}
 		out = append(out, c13Case{"W0", c})
 	}
+	// abstract fields whose possible types get different helper sets (one fragment selects id itself)
+	for _, q := range []string{"{ us { ... on N1 { id phone } ... on N4 { label } } }", "{ us { ... on N1 { phone } ... on N4 { id label } } }",
+		"{ us { ... on N4 { label } } }", "{ us { __typename ... on N1 { id } ... on N4 { label } } }"} {
+		out = append(out, c13Case{"W0+union-list", a.Case{Q: q}})
+	}
+	for _, q := range []string{"{ named { ... on N1 { id name } ... on N3 { name size } } }", "{ named { name ... on N3 { id } } }"} {
+		out = append(out, c13Case{"W0+interface-entities", a.Case{Q: q}})
+	}
 	if tier == "quick" {
 		add("W0", 2, 2)
 		add("W0+third-service", 2, 0)
